@@ -23,6 +23,7 @@ import (
 type Bins struct {
 	Bin        string
 	RaceBin    string
+	TrimBin    string
 	Sources    map[string][]byte
 	TimeoutSec int // -test.timeout of a lifetime (default 25); the watchdog is 35 s above it
 }
@@ -73,6 +74,9 @@ func Run(b *Bins, root, side string, l *scen.Lifetime, idx int) (*Result, error)
 		return nil, err
 	}
 	bin := b.Bin
+	if l.Trimpath && !l.Race && b.TrimBin != "" {
+		bin = b.TrimBin
+	}
 	if l.Race {
 		if b.RaceBin == "" {
 			return nil, fmt.Errorf("race binary not built")
